@@ -743,6 +743,16 @@ func (env *cenv) evalCall(t ECall) cval {
 	case "allocated":
 		v := env.eval(t.Args[0])
 		return cval{v: Val{c.And(c.Ule(c.Const(64, 1), v.v[0]), c.Ult(v.v[0], env.cur.brk))}, T: tBool}
+	case "base":
+		v := env.eval(t.Args[0])
+		switch v.T.Underlying().(type) {
+		case *types.Slice, *types.Pointer:
+			return cval{v: Val{v.v[0]}, T: types.Typ[types.Uintptr]}
+		}
+		if isString(v.T) {
+			return cval{v: Val{v.v[0]}, T: types.Typ[types.Uintptr]}
+		}
+		env.errf("base of %v", v.T)
 	case "payload":
 		v := env.eval(t.Args[0])
 		if _, ok := v.T.Underlying().(*types.Interface); !ok {
